@@ -151,7 +151,10 @@ func c18Eval(c *Ctx, cs *c18Case, o c18Out) {
 		case !res.OK:
 			c.Violation("C18/dot/site="+c18DotSite(c, o.out), "single-node graph is not valid DOT: "+trunc(string(o.out)), cs)
 		case got != want:
-			c.Disagree("C18/dot/escapeForDot-model", fmt.Sprintf("node tooltip carries %s, the model of escapeForDot gives %s", got, want), "Dot.escape models escapeForDot (lex_quoted_escape, unescape_escape)", cs)
+			// escapeForDot promises (doc comment) to escape quotes and backslashes and to turn
+			// newlines into \l; Dot.escape is that promise.  A concrete input on which the real
+			// function differs is a violation, named after the first input byte it treats differently.
+			c.Violation("C18/dot/escapeForDot/"+c18EscDiff(c, name), fmt.Sprintf("escapeForDot(%q): node tooltip carries %s, the specified escaping (Dot.escape) is %s", name, got, want), cs)
 		}
 		c.Res.Count(canon, strings.ContainsAny(name, "\"\\\n"))
 	case "callgrind-cli", "callgrind-report":
@@ -202,6 +205,31 @@ func c18Eval(c *Ctx, cs *c18Case, o c18Out) {
 		}
 		c.Res.Count(canon, reached || len(res.Calls) > 0)
 	}
+}
+
+// c18EscDiff names the first byte of name that the real escapeForDot (as seen in the tooltip of
+// a one-node graph) treats differently from the model.
+func c18EscDiff(c *Ctx, name string) string {
+	for i := 0; i < len(name); i++ {
+		one := &c18Case{Kind: "escape", Str: c18s("x" + name[i:i+1] + "y")}
+		o := c18Exec(c, "", 0, one)
+		res := c18AskDot(c, o.out)
+		want := c.Drv.Ask("dot.escape " + hexTok([]byte(one.Str)))
+		got := ""
+		if res.OK {
+			for _, n := range res.Nodes {
+				for _, a := range n.Attrs {
+					if n.ID == "N1" && a[0] == "tooltip" {
+						got = hexTok([]byte(strings.TrimSuffix(a[1], " (7)")))
+					}
+				}
+			}
+		}
+		if got != want {
+			return fmt.Sprintf("byte=0x%02x", name[i])
+		}
+	}
+	return "context-dependent"
 }
 
 func c18Bucket(n int) int {
@@ -360,6 +388,17 @@ func runC18(c *Ctx) {
 		c18Eval(c, cs, c18Exec(c, tmp, 0, cs))
 	}
 	// --- stream 3: escapeForDot against its model ---
+	// every run pushes EVERY byte value through the real function: alone, doubled, after a
+	// backslash, before a quote, and all 256 in one string — so the byte map is pinned by this
+	// stream alone, whatever form the source of escapeForDot has
+	var esc []string
+	all := make([]byte, 256)
+	for b := 0; b < 256; b++ {
+		all[b] = byte(b)
+		c1 := string([]byte{byte(b)})
+		esc = append(esc, "x"+c1+"y", c1+c1, "\\"+c1, c1+"\"", c1)
+	}
+	esc = append(esc, string(all), string(all)+string(all))
 	for i := 0; i < 1000*c.Scale; i++ {
 		rr := r.Fork()
 		var s string
@@ -376,6 +415,9 @@ func runC18(c *Ctx) {
 		default:
 			s = c18Insert(rr, "name", 1+rr.Intn(5))
 		}
+		esc = append(esc, s)
+	}
+	for _, s := range esc {
 		// the node label splits names at "." and "::" and ShortenFunctionName rewrites them; the
 		// tooltip carries the escaped name verbatim
 		cs := &c18Case{Kind: "escape", Str: c18s(s)}
